@@ -1085,8 +1085,13 @@ func crashPhase(r *rand.Rand, img []byte, sn, ntrials int, tot map[string]int) {
 	//     never-written page reads, or garbage) in front of intact later state records
 	np := len(persistOffsets)
 	for i := 0; np >= 3 && i < 2+ntrials/4; i++ {
-		j := r.Intn(np - 1)                    // states 0..j are before the hole
-		m := j + 1 + r.Intn(min(np-1-j, 5))    // state records m.. are intact after it
+		j := r.Intn(np - 1)                 // states 0..j are before the hole
+		m := j + 1 + r.Intn(min(np-1-j, 5)) // state records m.. are intact after it
+		if i%2 == 0 {
+			// only a few (1..8) intact looking state records after the hole
+			m = np - 1 - r.Intn(min(np-2, 8))
+			j = m - 1 - r.Intn(min(m, 2))
+		}
 		lo := persistOffsets[j] + sl
 		x := lo + r.Intn(persistOffsets[j+1]-lo+1)
 		if r.Intn(3) == 0 && j > 0 { // the hole starts inside / before state record j
